@@ -4,6 +4,7 @@ mod hist;
 mod macho;
 mod mem;
 mod model;
+mod mutate;
 mod pe;
 mod prog;
 mod row;
@@ -60,6 +61,16 @@ fn main() {
         "pe" => pe::run(&tier, seed),
         "macho" => macho::run(&tier, seed),
         "ana" => macho::run_ana(&tier, seed),
+        "mut" => mutate::run(&tier, seed, out.as_deref()),
+        "mut-replay" => {
+            let text = std::fs::read_to_string(out.as_deref().expect("--out <case file>")).expect("case file");
+            let panics = mutate::replay(&text);
+            for (loc, phase) in &panics {
+                println!("panic in {phase} at {loc}");
+            }
+            println!("{} panic(s)", panics.len());
+            std::process::exit(if panics.iter().any(|(l, _)| util::panic_in_own_code(l)) { 1 } else { 0 });
+        }
         _ => {
             eprintln!("unknown engine {engine}");
             std::process::exit(2);
